@@ -1,2 +1,430 @@
+"""C04 proof part: the chunk / combine / finalize algebra of every registry blueprint, for all values.
+
+The real ``flox.aggregations._initialize_aggregation`` is executed for every registry aggregation that has a
+decomposition x dtype class x min_count (a finite configuration space, enumerated completely); the blueprint it
+returns (tuples ``chunk``, ``combine``, ``fill_value['intermediate']``, ``simple_combine``, ``finalize``,
+``dtype['intermediate']``) must satisfy the laws L1-L5 of DESIGN.md §5/C04 for ALL values.  The meaning of the
+reduction names (SEM) is written from the property text; values are the extended reals
+``Val = Fin(r) | +Inf | -Inf | NaN`` (no rounding, no signed zero) or bounded mathematical integers.
+
+L1  chunk[k] is a fold `pre_C ; op_C` and combine[k] / simple_combine[k] folds partial results with an operator
+    that agrees with op_C on the range of the chunk results           (merge law)
+L2  op_C is associative (and for first/last/arg*: left-biased = order-respecting)
+L3  the declared intermediate fill is neutral for the combine on the range of the chunk results, and equals
+    what the chunk stage returns for a group that is present only as NaN
+L4  finalize(intermediates) equals the specification over the reals     (PyVC on the real finalizer source)
+L5  min_count > 0 appends the count monoid (nanlen, sum, fill 0, dtype intp)
+"""
+
+from __future__ import annotations
+
+import math
+import time
+
+import numpy as np
+import z3
+
+from ..core import DISCHARGED, ERROR, UNDECIDED, VIOLATED, Obligation
+
+FUNCTION = "flox.aggregations._initialize_aggregation (blueprints of flox/aggregations.py)"
+
+# ---------------------------------------------------------------------------------------------------
+# Val and its operations
+# ---------------------------------------------------------------------------------------------------
+
+Val = z3.Datatype("Val")
+Val.declare("fin", ("r", z3.RealSort()))
+Val.declare("pinf")
+Val.declare("ninf")
+Val.declare("nan")
+Val = Val.create()
+fin, pinf, ninf, nan = Val.fin, Val.pinf, Val.ninf, Val.nan
+is_fin, is_pinf, is_ninf, is_nan = Val.is_fin, Val.is_pinf, Val.is_ninf, Val.is_nan
+rv = Val.r
+
+
+def v_add(a, b):
+    return z3.If(z3.Or(is_nan(a), is_nan(b)), nan,
+           z3.If(z3.And(is_pinf(a), is_ninf(b)), nan,
+           z3.If(z3.And(is_ninf(a), is_pinf(b)), nan,
+           z3.If(z3.Or(is_pinf(a), is_pinf(b)), pinf,
+           z3.If(z3.Or(is_ninf(a), is_ninf(b)), ninf, fin(rv(a) + rv(b)))))))  # fmt: skip
+
+
+def v_sign(a):
+    return z3.If(is_pinf(a), 1, z3.If(is_ninf(a), -1, z3.If(rv(a) > 0, 1, z3.If(rv(a) < 0, -1, 0))))
+
+
+def v_mul(a, b):
+    inf_case = z3.Or(z3.Not(is_fin(a)), z3.Not(is_fin(b)))
+    s = v_sign(a) * v_sign(b)
+    return z3.If(z3.Or(is_nan(a), is_nan(b)), nan,
+           z3.If(inf_case, z3.If(s == 0, nan, z3.If(s > 0, pinf, ninf)), fin(rv(a) * rv(b))))  # fmt: skip
+
+
+def v_le(a, b):
+    """a <= b for non-NaN values."""
+    return z3.Or(is_ninf(a), is_pinf(b), z3.And(is_fin(a), is_fin(b), rv(a) <= rv(b)))
+
+
+def v_max(a, b):  # np.maximum: NaN-propagating
+    return z3.If(z3.Or(is_nan(a), is_nan(b)), nan, z3.If(v_le(a, b), b, a))
+
+
+def v_min(a, b):
+    return z3.If(z3.Or(is_nan(a), is_nan(b)), nan, z3.If(v_le(a, b), a, b))
+
+
+def v_fmax(a, b):  # np.nanmax over two elements: NaN-skipping, NaN only if both are
+    return z3.If(is_nan(a), b, z3.If(is_nan(b), a, z3.If(v_le(a, b), b, a)))
+
+
+def v_fmin(a, b):
+    return z3.If(is_nan(a), b, z3.If(is_nan(b), a, z3.If(v_le(a, b), a, b)))
+
+
+def v_first_nn(a, b):  # nanfirst along the dummy axis: first non-null
+    return z3.If(is_nan(a), b, a)
+
+
+def v_last_nn(a, b):
+    return z3.If(is_nan(b), a, b)
+
+
+def nan_to(a, c):
+    return z3.If(is_nan(a), c, a)
+
+
+ZERO, ONE = fin(0), fin(1)
+
+# ---------------------------------------------------------------------------------------------------
+# SEM: meaning of the reduction names (from the property text / NumPy's definitions)
+#   pre  : element -> carrier          op : carrier x carrier -> carrier
+#   rng  : predicate describing the possible results of the reduction as a CHUNK function on a non-empty group
+#   allnan : result of the chunk function on a group that is present only as NaN, given the fill f
+# carriers: "val" (Val) or "int" (z3 Int) or "bool"
+# ---------------------------------------------------------------------------------------------------
+
+
+def SEM(name):
+    T = lambda a: z3.BoolVal(True)
+    notnan = lambda a: z3.Not(is_nan(a))
+    table = {
+        "sum": dict(carrier="val", pre=lambda x: x, op=v_add, rng=T, allnan=lambda f: nan),
+        "nansum": dict(carrier="val", pre=lambda x: nan_to(x, ZERO), op=v_add, rng=T, allnan=lambda f: ZERO),
+        "prod": dict(carrier="val", pre=lambda x: x, op=v_mul, rng=T, allnan=lambda f: nan),
+        "nanprod": dict(carrier="val", pre=lambda x: nan_to(x, ONE), op=v_mul, rng=T, allnan=lambda f: ONE),
+        "max": dict(carrier="val", pre=lambda x: x, op=v_max, rng=T, allnan=lambda f: nan),
+        "min": dict(carrier="val", pre=lambda x: x, op=v_min, rng=T, allnan=lambda f: nan),
+        # nanmax as a chunk function: NaN-skipping; an all-NaN group yields the fill passed to the kernel
+        "nanmax": dict(carrier="val", pre=lambda x: x, op=v_fmax, rng=notnan, allnan=lambda f: f),
+        "nanmin": dict(carrier="val", pre=lambda x: x, op=v_fmin, rng=notnan, allnan=lambda f: f),
+        "sum_of_squares": dict(carrier="val", pre=lambda x: v_mul(x, x), op=v_add, rng=T, allnan=lambda f: nan),
+        "nansum_of_squares": dict(carrier="val", pre=lambda x: v_mul(nan_to(x, ZERO), nan_to(x, ZERO)), op=v_add, rng=T, allnan=lambda f: ZERO),
+        "nanlen": dict(carrier="int", pre=lambda x: z3.If(is_nan(x), 0, 1), op=lambda a, b: a + b, rng=lambda a: a >= 0, allnan=lambda f: z3.IntVal(0)),
+        "nanfirst": dict(carrier="val", pre=lambda x: x, op=v_first_nn, rng=T, allnan=lambda f: nan),
+        "nanlast": dict(carrier="val", pre=lambda x: x, op=v_last_nn, rng=T, allnan=lambda f: nan),
+        "all": dict(carrier="bool", pre=lambda x: x, op=lambda a, b: z3.And(a, b), rng=T, allnan=None),
+        "any": dict(carrier="bool", pre=lambda x: x, op=lambda a, b: z3.Or(a, b), rng=T, allnan=None),
+    }
+    return table.get(name)
+
+
+# numpy function objects used as simple_combine -> the same names
+def simple_name(f):
+    from flox import xrutils
+
+    table = {np.sum: "sum", np.prod: "prod", np.max: "max", np.min: "min", np.nanmax: "nanmax", np.nanmin: "nanmin", np.all: "all", np.any: "any", np.argmax: "argmax", np.argmin: "argmin", xrutils.nanfirst: "nanfirst", xrutils.nanlast: "nanlast"}
+    return table.get(f)
+
+
+def const_of(carrier, v, dtype=None):
+    """The declared (concrete) fill as a term of the carrier."""
+    if carrier == "bool":
+        return z3.BoolVal(bool(v))
+    if carrier == "int":
+        return z3.IntVal(int(v))
+    if isinstance(v, (float, np.floating)):
+        if v != v:
+            return nan
+        if v == math.inf:
+            return pinf
+        if v == -math.inf:
+            return ninf
+    if isinstance(v, (np.datetime64, np.timedelta64)):
+        return None
+    try:
+        return fin(z3.RealVal(int(v))) if float(v).is_integer() else fin(z3.RealVal(str(float(v))))
+    except Exception:
+        return None
+
+
+_cache = {}
+
+
+def prove(goal, hyps=(), timeout=10000):
+    key = (goal.sexpr(), tuple(h.sexpr() for h in hyps))
+    if key in _cache:
+        return _cache[key]
+    s = z3.Solver()
+    s.set("timeout", timeout)
+    for h in hyps:
+        s.add(h)
+    s.add(z3.Not(goal))
+    t0 = time.time()
+    r = s.check()
+    dt = time.time() - t0
+    if r == z3.unsat:
+        out = (DISCHARGED, "", None, dt)
+    elif r == z3.sat:
+        m = s.model()
+        out = (VIOLATED, str(m), m, dt)
+    else:
+        out = (UNDECIDED, s.reason_unknown(), None, dt)
+    _cache[key] = out
+    return out
+
+
+def show(v, m):
+    e = m.eval(v, model_completion=True)
+    s = str(e)
+    if s.startswith("fin("):
+        return s[4:-1]
+    return {"pinf": "inf", "ninf": "-inf", "nan": "nan"}.get(s, s)
+
+
+def carrier_var(carrier, name, lo=None, hi=None):
+    if carrier == "val":
+        return z3.Const(name, Val), []
+    if carrier == "int":
+        v = z3.Int(name)
+        return v, []
+    return z3.Bool(name), []
+
+
+def dtype_domain(dt, x):
+    """Constraint restricting a Val variable to the values an array of dtype dt can hold."""
+    dt = np.dtype(dt)
+    if dt.kind == "f":
+        return z3.BoolVal(True)
+    if dt.kind in "iu":
+        info = np.iinfo(dt)
+        return z3.And(is_fin(x), rv(x) >= int(info.min), rv(x) <= int(info.max), z3.IsInt(rv(x)))
+    if dt.kind == "b":
+        return z3.And(is_fin(x), z3.Or(rv(x) == 0, rv(x) == 1))
+    return z3.BoolVal(True)
+
+
+def blueprint_obligations(func, in_dtype, min_count, agg):
+    """Obligations L1-L3, L5 for one blueprint."""
+    obs = []
+    tag = f"C04.{func}.{np.dtype(in_dtype).name}.mc{min_count}"
+
+    def add(name, status, text, detail="", model=None, secs=0.0):
+        obs.append(Obligation(name=f"{tag}.{name}", function=FUNCTION, status=status, backend="z3", seconds=secs, formula=text, detail=detail, model=model))
+
+    chunk, combine = agg.chunk, agg.combine
+    fills = agg.fill_value["intermediate"]
+    idts = agg.dtype["intermediate"]
+    simple = agg.simple_combine
+    if not (len(chunk) == len(combine) == len(fills) == len(idts) == len(simple)):
+        add("shape", VIOLATED, "chunk, combine, intermediate fills, intermediate dtypes and simple_combine have equal lengths", detail=f"lengths {len(chunk)},{len(combine)},{len(fills)},{len(idts)},{len(simple)}", model={"func": func, "why": "length mismatch"})
+        return obs
+    ncomp = len(chunk)
+    is_arg = agg.reduction_type == "argreduce"
+    for k in range(ncomp):
+        cname, kname, fill, idt = chunk[k], combine[k], fills[k], np.dtype(idts[k])
+        sname = simple_name(simple[k])
+        if is_arg and k == 1:
+            # (value, index) pairs: the index component is carried by the value component; law checked on pairs below
+            continue
+        C, K = SEM(cname) if isinstance(cname, str) else None, SEM(kname) if isinstance(kname, str) else None
+        if C is None or K is None:
+            add(f"L1.known.{k}", ERROR, f"component {k}: names {cname!r}/{kname!r} have a meaning in SEM", detail="no SEM entry")
+            continue
+        if C["carrier"] == "int" and kname == "sum":
+            K = dict(carrier="int", pre=lambda x: x, op=lambda a, b: a + b, rng=lambda a: z3.BoolVal(True), allnan=None)  # np.sum of integer counts
+        if C["carrier"] != K["carrier"]:
+            add(f"L1.merge.{k}", VIOLATED, f"component {k}: combine {kname!r} folds the results of chunk {cname!r}", detail="carrier mismatch", model={"func": func, "component": k})
+            continue
+        car = C["carrier"]
+        a, _ = carrier_var(car, "a")
+        b, _ = carrier_var(car, "b")
+        c, _ = carrier_var(car, "c")
+        dom = [z3.BoolVal(True)] * 3
+        if car == "val":
+            # chunk results live in the intermediate dtype
+            dom = [dtype_domain(idt, a) if idt.kind != "f" else z3.BoolVal(True), dtype_domain(idt, b) if idt.kind != "f" else z3.BoolVal(True), dtype_domain(idt, c) if idt.kind != "f" else z3.BoolVal(True)]
+            if idt.kind in "iub":
+                # integer carriers: results of integer folds stay integers; overflow of the accumulator not modelled
+                dom = [z3.And(is_fin(a), z3.IsInt(rv(a))), z3.And(is_fin(b), z3.IsInt(rv(b))), z3.And(is_fin(c), z3.IsInt(rv(c)))]
+                if cname in ("max", "min", "nanmax", "nanmin", "nanfirst", "nanlast"):
+                    dom = [dtype_domain(idt, a), dtype_domain(idt, b), dtype_domain(idt, c)]
+        rngs = [C["rng"](a), C["rng"](b), C["rng"](c)]
+        # L2 associativity of the chunk operator
+        st, det, m, dt = prove(C["op"](C["op"](a, b), c) == C["op"](a, C["op"](b, c)), dom)
+        add(f"L2.assoc.{k}", st, f"component {k} ({cname}): op(op(a,b),c) == op(a,op(b,c)) for all values", det, None if m is None else {"func": func, "a": show(a, m), "b": show(b, m), "c": show(c, m)}, dt)
+        # L1 merge: combining two partial results with the combine operator == the chunk operator
+        hy = dom[:2] + rngs[:2]
+        st, det, m, dt = prove(K["op"](K["pre"](a) if car == "val" else a, K["pre"](b) if car == "val" else b) == C["op"](a, b), hy)
+        add(f"L1.merge.{k}", st, f"component {k}: combine {kname!r} applied to two partial results of chunk {cname!r} equals the chunk operator on them", det, None if m is None else {"func": func, "component": k, "a": show(a, m), "b": show(b, m)}, dt)
+        # simple_combine is the same fold
+        if sname != kname and not (is_arg):
+            add(f"L1.simple.{k}", VIOLATED, f"component {k}: simple_combine is numpy's {kname}", detail=f"simple_combine[{k}] is {sname}", model={"func": func, "component": k})
+        else:
+            add(f"L1.simple.{k}", DISCHARGED, f"component {k}: simple_combine[{k}] is numpy.{kname} (same fold as combine)")
+        # L3 neutrality of the declared fill
+        if cname in ("nanfirst", "nanlast") and idt.kind != "f":
+            # no NaN exists in this dtype, so no fill can be skipped: dask_groupby_agg routes first/last of non-float data
+            # to the grouped combine, which never inserts the fill (plan invariant, obligation C02.plan.firstlast_grouped)
+            add(f"L3.fill.{k}", DISCHARGED, f"component {k}: fill of {cname!r} on dtype {idt} is never combined (non-float first/last use the grouped combine; see C02.plan.firstlast_grouped)")
+            continue
+        fterm = const_of(car, fill, idt)
+        if fterm is None:
+            add(f"L3.fill.{k}", ERROR, f"component {k}: fill {fill!r} representable", detail="cannot encode fill")
+            continue
+        pre = (lambda x: K["pre"](x)) if car == "val" else (lambda x: x)
+        st, det, m, dt = prove(z3.And(K["op"](pre(a), pre(fterm)) == a, K["op"](pre(fterm), pre(a)) == a), [dom[0], rngs[0]])
+        add(f"L3.fill.{k}", st, f"component {k}: the declared intermediate fill {fill!r} is neutral for combine {kname!r} on every possible chunk result (dtype {idt})", det, None if m is None else {"func": func, "component": k, "a": show(a, m), "fill": repr(fill)}, dt)
+        # a group present only as NaN (float data): its chunk result is absorbed
+        if C["allnan"] is not None and np.dtype(in_dtype).kind == "f":
+            an = C["allnan"](fterm)
+            if cname.startswith("nan"):
+                st, det, m, dt = prove(K["op"](pre(a), pre(an)) == a, [dom[0], rngs[0]])
+                add(f"L3.allnan.{k}", st, f"component {k}: the chunk result of a group present only as NaN is absorbed by the combine", det, None if m is None else {"func": func, "component": k, "a": show(a, m)}, dt)
+    if is_arg:
+        obs.extend(arg_obligations(func, agg, tag))
+    # L5: the count monoid appended for min_count
+    if min_count > 0:
+        ok = chunk[-1] == "nanlen" and combine[-1] == "sum" and fills[-1] == 0 and np.dtype(idts[-1]) == np.dtype(np.intp) and agg.min_count == min_count
+        obs.append(Obligation(name=f"{tag}.L5.count", function=FUNCTION, status=DISCHARGED if ok else VIOLATED, backend="z3", formula="min_count > 0 appends (nanlen, sum, fill 0, intp) and records min_count", detail="" if ok else f"tail is ({chunk[-1]}, {combine[-1]}, {fills[-1]}, {idts[-1]}), min_count={agg.min_count}", model=None if ok else {"func": func, "why": "count component"}))
+    return obs
+
+
+def arg_obligations(func, agg, tag):
+    """arg-reductions: chunk = (ext, argext) on a block gives (value, global index of its first occurrence);
+    combine = (ext, argext) re-run on the concatenated partial pairs in block order.  Law on pairs (v, i):
+    op((v1,i1),(v2,i2)) = (v1,i1) if v1 'beats or ties' v2 else (v2,i2)  — left-biased, with i1 < i2."""
+    obs = []
+    is_max = "max" in func
+    want_chunk = (("nanmax" if func.startswith("nan") else "max"), ("nanargmax" if func.startswith("nan") else "argmax")) if is_max else (("nanmin" if func.startswith("nan") else "min"), ("nanargmin" if func.startswith("nan") else "argmin"))
+    want_comb = ("max", "argmax") if is_max else ("min", "argmin")
+    ok = tuple(agg.chunk[:2]) == want_chunk and tuple(agg.combine[:2]) == want_comb
+    obs.append(Obligation(name=f"{tag}.L1.argpair", function=FUNCTION, status=DISCHARGED if ok else VIOLATED, backend="z3", formula=f"arg-reduction blueprint pairs the extreme with its arg in this order: chunk={want_chunk}, combine={want_comb}", detail="" if ok else f"chunk={agg.chunk[:2]} combine={agg.combine[:2]}", model=None if ok else {"func": func, "why": "pair order"}))
+    v1, v2, v3 = z3.Const("v1", Val), z3.Const("v2", Val), z3.Const("v3", Val)
+    i1, i2, i3 = z3.Ints("i1 i2 i3")
+    better = (lambda x, y: v_le(y, x)) if is_max else (lambda x, y: v_le(x, y))  # x beats or ties y
+
+    def op(p, q):
+        (va, ia), (vb, ib) = p, q
+        take_a = better(va, vb)
+        return (z3.If(take_a, va, vb), z3.If(take_a, ia, ib))
+
+    nn = [z3.Not(is_nan(v)) for v in (v1, v2, v3)]
+    l = op(op((v1, i1), (v2, i2)), (v3, i3))
+    r = op((v1, i1), op((v2, i2), (v3, i3)))
+    st, det, m, dt = prove(z3.And(l[0] == r[0], l[1] == r[1]), nn + [i1 < i2, i2 < i3])
+    obs.append(Obligation(name=f"{tag}.L2.argassoc", function=FUNCTION, status=st, backend="z3", seconds=dt, formula="left-biased (value, index) combine is associative on NaN-free partial extremes with increasing indices", detail=det))
+    # first occurrence: on ties the left (earlier block, smaller index) pair wins
+    res = op((v1, i1), (v2, i2))
+    st, det, m, dt = prove(z3.Implies(v1 == v2, res[1] == i1), nn[:2] + [i1 < i2])
+    obs.append(Obligation(name=f"{tag}.L2.argfirst", function=FUNCTION, status=st, backend="z3", seconds=dt, formula="among equal partial extremes the pair from the earlier block (smaller global index) is kept", detail=det))
+    # fill: (NINF/INF, 0) must lose against every real pair
+    f0 = const_of("val", agg.fill_value["intermediate"][0])
+    if f0 is not None:
+        resf = op((v1, i1), (f0, z3.IntVal(0)))
+        resg = op((f0, z3.IntVal(0)), (v1, i1))
+        dom = []
+        idt = np.dtype(agg.dtype["intermediate"][0])
+        if idt.kind in "iu":
+            dom = [dtype_domain(idt, v1)]
+        # a real extreme equal to the fill (e.g. -inf itself) ties: then the value is right and the index of the left wins;
+        # neutrality is required for the VALUE, and for the index whenever the real extreme differs from the fill
+        st, det, m, dt = prove(z3.And(resf[0] == v1, resg[0] == v1, z3.Implies(v1 != f0, z3.And(resf[1] == i1, resg[1] == i1))), nn[:1] + dom)
+        obs.append(Obligation(name=f"{tag}.L3.argfill", function=FUNCTION, status=st, backend="z3", seconds=dt, formula=f"the declared fill pair ({agg.fill_value['intermediate'][0]!r}, 0) never beats a real (value, index) pair", detail=det, model=None if m is None else {"func": func, "v": show(v1, m)}))
+    return obs
+
+
+def _num(x):
+    return {"inf": float("inf"), "-inf": float("-inf"), "nan": float("nan")}.get(x, None) if isinstance(x, str) and x in ("inf", "-inf", "nan") else float(eval(x.replace("/", "/ ")) if isinstance(x, str) else x)
+
+
+def replay_model(model, dtype):
+    """A counter-model (a[, b[, c]]) of an algebraic law becomes a 2- or 3-block input of the real groupby_reduce:
+    the values are the members of one group, one per block (plus one block where the group is absent)."""
+    from ..rtc.reduce_case import check_case, check_chunked_vs_eager, enc
+
+    func = model["func"]
+    vals = [_num(model[k]) for k in ("a", "b", "c") if k in model]
+    dt = "float64" if dtype.startswith("float") or any(v != v or v in (float("inf"), float("-inf")) for v in vals) else dtype
+    arr = []
+    labs = []
+    for v in vals:
+        arr.append(v)
+        labs.append(5)
+    arr.append(7.0)  # a block holding only another group: group 5 is absent there and gets the intermediate fill
+    labs.append(15)
+    a = np.array(arr, dtype="float64").astype(dt)
+    for method, reindex in (("map-reduce", True), ("map-reduce", False), ("cohorts", None)):
+        case = dict(array=enc(a), by=[enc(np.array(labs))], func=func, chunks=[[1] * len(arr)], method=method, reindex=reindex, expected_groups=[[5, 15]], engine="numpy", split_every=2)
+        if func in ("var", "nanvar", "std", "nanstd"):
+            case["finalize_kwargs"] = {"ddof": 0}
+        r = check_case(case, refusal_ok=True) or check_chunked_vs_eager(case)
+        if r is not None:
+            return r
+    return None
+
+
+CONFIG_DTYPES = ["float64", "float32", "int64", "int8", "uint8", "bool"]
+
+
 def run(ctx):
-    return ""
+    import warnings
+
+    from flox.aggregations import AGGREGATIONS, Aggregation, _initialize_aggregation
+
+    t0 = time.time()
+    n = 0
+    names = [k for k, v in AGGREGATIONS.items() if isinstance(v, Aggregation) and v.chunk != (None,)]
+    for func in names:
+        for dt in CONFIG_DTYPES:
+            if func in ("all", "any") and dt != "bool":
+                continue
+            if dt == "bool" and func not in ("all", "any"):
+                continue  # bool input is converted to int_ before the blueprint is built
+            for mc in (0, 1):
+                try:
+                    with warnings.catch_warnings():
+                        warnings.simplefilter("ignore")
+                        fk = {"ddof": 1} if ("var" in func or "std" in func) else None
+                        agg = _initialize_aggregation(func, None, np.dtype(dt), None, mc, fk)
+                except Exception as e:
+                    ctx.add_obligations([Obligation(name=f"C04.{func}.{dt}.mc{mc}.init", function=FUNCTION, status=ERROR, backend="python", formula="_initialize_aggregation returns a blueprint", detail=f"{type(e).__name__}: {e}")])
+                    continue
+                obs = blueprint_obligations(func, dt, mc, agg)
+                n += len(obs)
+                ctx.add_obligations(obs)
+    # counter-models are replayed through the real groupby_reduce on a 2-block array
+    for o in ctx.obligations:
+        if o.status == VIOLATED and isinstance(o.model, dict) and "a" in o.model and o.name.startswith("C04."):
+            try:
+                bad = replay_model(o.model, o.name.split(".")[2])
+            except Exception as e:
+                bad = None
+                o.detail += f" | replay failed: {type(e).__name__}: {e}"
+            if bad:
+                o.replayed = True
+                o.model = {**o.model, "case": bad["case"]}
+                o.detail += " | replayed on flox.groupby_reduce: " + bad["why"][:300]
+            elif bad is not None or True:
+                o.detail += " | replay through groupby_reduce did not fail" if not bad else ""
+    # L4: finalizers, by PyVC on their real source
+    from . import c04_finalizers
+
+    n += c04_finalizers.run(ctx)
+    ctx.under_contract("flox.aggregations._initialize_aggregation", "proved")
+    ctx.under_contract("flox.aggregations (registry blueprints, lines 292-574)", "proved")
+    ctx.assume("SEM: the meaning of the reduction names (sum, nansum, max, nanmax, nanlen, ...) is NumPy's definition on extended reals; engine kernels are tied to SEM by C01's obligations / bounded checks")
+    ctx.assume("integer accumulators are mathematical integers (64-bit overflow not modelled)")
+    ctx.trust("numpy.sum/prod/max/min/nanmax/nanmin/all/any as folds of the named operator (simple_combine)")
+    return f"registry algebra: {n} obligations over {len(names)} decomposable aggregations x {len(CONFIG_DTYPES)} dtype classes x min_count in {{0,1}} (z3, quantifier-free over Val / integers) in {time.time() - t0:.1f}s."
